@@ -542,6 +542,6 @@ REPLAY["helpers"] = lambda c: explore_helpers(c).fails
 # results must not depend on which library calls were made earlier in the process (see mc/order.py)
 from .. import order as _order  # noqa: E402
 
-_ORDER = _order.OrderSub("C01", "lie", lambda k: k.split('/')[-1] in ('to_Matrix','product','inverse','from_Matrix'))
+_ORDER = _order.OrderSub("C01", "lie", lambda k: k.split('/')[-1] in ('to_Matrix','product','inverse','from_Matrix','identity','times_identity'))
 SUBCHECKS["order"] = _ORDER
 REPLAY["order"] = _ORDER.replay
